@@ -59,7 +59,7 @@ theorem energy_for_week (p : ClaimProgress) (k : Nat) :
     (2) the only weeks whose paid-ledger moved are weeks `w` with `W − 4 ≤ w < W` that are not
         before the week of `orig`'s previous progress — in particular a first-time claimer is
         paid nothing; nobody else's progress is touched. -/
-theorem claim_once {s s' : St} {orig W : Nat} {o : Out} (hW : s.week = some W)
+theorem claim_once {s s' : Fees.St} {orig W : Nat} {o : Out} (hW : s.week = some W)
     (h : claimCore s orig = some (s', o)) :
     (s'.w.progress orig = none ∨ ∃ e, s'.w.progress orig = some ⟨e, W⟩) ∧
     (∀ u, u ≠ orig → s'.w.progress u = s.w.progress u) ∧
@@ -70,7 +70,7 @@ theorem claim_once {s s' : St} {orig W : Nat} {o : Out} (hW : s.week = some W)
 /-- **never twice.**  Two successful claims for the same user, the second one at any later
     time: the second claim moves the ledger only for weeks `≥` the week of the first claim —
     every week the first claim could have paid (`< W₁`) is out of its reach. -/
-theorem never_twice {s1 s1' s2 s2' : St} {orig W1 : Nat} {o1 o2 : Out}
+theorem never_twice {s1 s1' s2 s2' : Fees.St} {orig W1 : Nat} {o1 o2 : Out}
     (hW1 : s1.week = some W1) (h1 : claimCore s1 orig = some (s1', o1))
     (hsame : s2.w.progress orig = s1'.w.progress orig)
     (h2 : claimCore s2 orig = some (s2', o2)) :
@@ -90,11 +90,8 @@ theorem four_weeks_max {σ : Type} {rw : RewardFn σ} {g g' : Weekly.St} {c c' :
     {cur : Energy} {r : List (Tok × Nat)} (h : claimMulti rw g c user W cur = some (g', c', r)) :
     ∃ n a0 a, n ≤ 4 ∧ claimLoop rw n a0 = some a ∧ a0.p.week + n = W ∧ r = a.rewards := by
   obtain ⟨g1, a, _, hle, ha, _, _, hr⟩ := claimMulti_spec h
-  refine ⟨_, _, a, Nat.min_le_right _ _, ha, ?_, hr⟩
-  simp only [USER_MAX_CLAIM_WEEKS]
-  split
-  · rw [ClaimProgress.advanceMultipleWeeks_eq]; simp only; omega
-  · omega
+  obtain ⟨hw1, hw2, _⟩ := loop_window _ W hle
+  exact ⟨_, _, a, hw2, ha, hw1, hr⟩
 
 /-! ### never more than collected -/
 
@@ -158,8 +155,7 @@ theorem week_sum_bound_current (epoch lockEpochs : Nat) (known : List Tok)
       (s.w.totalEnergy s.w.lastGlobalUpdateWeek)) ≤ total := by
   intro s
   apply usum_share_le_total
-  rw [global_energy_inv epoch lockEpochs known contracts whitelist ops]
-  exact Nat.le_refl _
+  exact Nat.le_of_eq (global_energy_inv epoch lockEpochs known contracts whitelist ops).symm
 
 /-- FULL per-week statement over histories (not proved in this form — see `week_sum_bound`,
     `week_sum_bound_current`, `claim_once`, and the harness oracle `week_sum_bound` that checks
@@ -196,7 +192,7 @@ theorem collector_solvent (epoch lockEpochs : Nat) (known : List Tok)
   exact unclaimed_le_bal s t K hle h
 
 /-- a failed transaction leaves the state untouched (atomicity as modelled) -/
-theorem failed_tx_no_effect (s : St) (op : Op) (h : step s op = none) : run s [op] = s := by
+theorem failed_tx_no_effect (s : Fees.St) (op : Op) (h : step s op = none) : run s [op] = s := by
   simp [run, h]
 
 /-! ### non-vacuity -/
